@@ -162,6 +162,32 @@ def hxc_jobs(Job, cfg=CFG_NDEBUG, tier="quick"):
             J("hxc_track_metadata", "h_track_metadata", ["hxc_get_track_metadata"], loops=True, cover=True)]
 
 
+TRACK_GROUP = ["crc_cycle", "CRC16Base_update", "CRC16Base_update_bit", "reverse_bit_order", "BitStream_raw_pos",
+               "BitStream_rawbit", "BitStream_getbit", "BitStream_size", "mfm_read_byte"]
+
+
+def track_J(Job, cfg, name, entry, enforce, tier="quick", **kw):
+    return Job("D_%s_%s" % (name, cfg[0]), "harness/dfs_track.c", entry, enforce=enforce, defines=list(cfg[1]),
+               extract=ext(TRACK_GROUP), tier=tier, **kw)
+
+
+def crc_jobs(Job, cfg=CFG_NDEBUG, tier="quick"):
+    return [track_J(Job, cfg, "crc_cycle", "h_crc_cycle", ["crc_cycle"], tier),
+            track_J(Job, cfg, "crc_update_bit", "h_crc_update_bit", ["CRC16Base_update_bit"], tier, replace=["crc_cycle"]),
+            track_J(Job, cfg, "crc_update", "h_crc_update", ["CRC16Base_update"], tier, replace=["crc_cycle"], loops=True,
+                    cbmc=["--unwindset", "h_fill_crc.0:266,CRC16Base_update_wrapped_for_contract_checking.1:9,CRC16Base_update.1:9", "--unwinding-assertions"])]
+
+
+def bitstream_jobs(Job, cfg=CFG_NDEBUG, tier="quick"):
+    return [track_J(Job, cfg, "reverse_bit_order", "h_reverse", ["reverse_bit_order"], tier),
+            track_J(Job, cfg, "bitstream_raw_pos", "h_raw_pos", ["BitStream_raw_pos"], tier),
+            track_J(Job, cfg, "bitstream_rawbit", "h_rawbit", ["BitStream_rawbit"], tier),
+            track_J(Job, cfg, "bitstream_size", "h_size", ["BitStream_size"], tier),
+            track_J(Job, cfg, "bitstream_getbit", "h_getbit", ["BitStream_getbit"], tier, replace=["BitStream_raw_pos", "BitStream_rawbit"]),
+            track_J(Job, cfg, "mfm_read_byte", "h_mfm_read_byte", ["mfm_read_byte"], tier, replace=["BitStream_getbit", "BitStream_size"], cover=True,
+                    cbmc=["--unwindset", "mfm_read_byte_wrapped_for_contract_checking.0:9,mfm_read_byte.0:9", "--unwinding-assertions"])]
+
+
 DFS_TRUSTED = [
     "engine/cxx2c.py: the verified text is the function body extracted from /repo on every run; rules fired and SHA-256 of the source range are in coverage.jobs[].extracted",
     "models/dfs_model.h: DataAccess::read_block as a deterministic partial function with a call log; std::function visitors as monitored calls; "
